@@ -15,7 +15,8 @@
    b8719b7 (model: tstep_gen true) violates do_never_twice: see do_never_twice_unfixed_refuted. *)
 From Coq Require Import List Arith ZArith Lia Bool.
 Import ListNotations.
-From GV Require Import Sched Events DelayedObjectsModel DelayedObjectsProofs.
+From GV Require Lin.
+From GV Require Import Sched Events DelayedObjectsModel DelayedObjectsProofs DelayedObjectsLin.
 Local Open Scope Z_scope.
 
 (* ---------- do_never_twice ---------- *)
@@ -218,6 +219,37 @@ Theorem do_lin_point : forall t c g l g' l' es, tstep t c g l = Some (g', l', es
    (exists x, hist g' = hist g ++ x /\ (forall e, In e x -> fst (fst e) = t) /\
               holds (at_ l') = true /\ (is_lock (at_ l) = true \/ holds (at_ l) = true))).
 Proof. exact lin_point. Qed.
+(* ---------- do_linearizable_hw: linearizability in the sense of Herlihy & Wing (Common/Lin.v) ---------- *)
+(* hist_of s0 sched = the annotated history of the run: Inv t o at the K_INVOKE step of a container method
+   (client-side polling of a future emits nothing), Lin t and Res t out at the step that releases promiseLock and
+   emits K_RET rv (out = ORet rv) or K_CATCH (out = OExn).  Every effect of a method on the container happens
+   while the caller owns the lock, so any point of the critical section is a linearization point: we take the
+   release.  spec_apply pl = the sequential specification with fault injection over states (container, number of
+   copies made): setDelayedValue(const X&) on a pending key makes one copy; fulfillAllPromises makes one copy per
+   pending promise, int keys first, then string keys, in key order, each followed by the body of setDelayedValue
+   for that key; a copy whose index is in pl throws and ends the call there (the compound is cut short). *)
+Theorem do_hist_events : forall t c g l g' l' es, tstep t c g l = Some (g', l', es) ->
+  match hev_of t l with
+  | [] => True
+  | [Lin.Inv _ _ _ o] => In (E K_INVOKE 0 (opcode o)) es /\ locks o = true
+  | [Lin.Lin _ _ _; Lin.Res _ _ _ out] =>
+    es = unlock_evs out /\ match out with ORet rv => In (E K_RET 0 rv) es | OExn => In (E K_CATCH 0 0) es | OFault => True end
+  | _ => False
+  end.
+Proof. exact hev_of_events. Qed.
+(* the history of every run, under every throw plan, is well formed (per thread Inv, Lin, Res, Inv, ...) and the
+   operations in the order of their linearization points are a legal run of the specification from the empty
+   container, with exactly the outcomes the calls had *)
+Theorem do_hist_wf : forall ns pl progs sched,
+  exists L, Lin.scan op outc (hist_of (init ns pl progs) sched) = Some L /\
+            Lin.legal op outc sstate (spec_apply pl) s0 L.
+Proof. exact hist_wf. Qed.
+(* hence (Lin.scan_linearizes): there is a linearization - every completed call exactly once, records describing
+   actual events, ordered by linearization point, real-time order respected - that is legal *)
+Theorem do_linearizable_hw : forall ns pl progs sched,
+  Lin.linearizable op outc sstate (spec_apply pl) s0 (hist_of (init ns pl progs) sched).
+Proof. exact linearizable_hw. Qed.
+
 (* the container changes only in steps of a thread that is acquiring or owns promiseLock *)
 Theorem do_atomic_sections : forall t c g l g' l' es,
   tstep t c g l = Some (g', l', es) -> is_lock (at_ l) = false -> holds (at_ l) = false -> ct g' = ct g.
@@ -342,3 +374,21 @@ Example ex_repaired_interrupted_fulfill :
   fut_get (heap (ct (gl s))) (Some 0%nat) = 5000 /\ fut_get (heap (ct (gl s))) (Some 1%nat) = C_NOTREADY /\
   destroy (ct (gl s)) = Some [Cell false 1 (SetV 5000); Cell false 2 (SetV 0)].
 Proof. vm_compute. repeat split. Qed.
+
+(* a history with overlapping calls and a throwing copy: thread 1's setDelayedValue (its copy throws: OExn) overlaps
+   thread 0's isCompleted, which is linearized after it and still answers 0; then fulfillAllPromises serves the key *)
+Definition hw_progs : list (list op) :=
+  [[GetFuture false 1 0; IsCompleted false 1]; [SetValue false false 1 7; FulfillAll 9]].
+Definition hw_sched : list (nat * nat) :=
+  [(0,0);(0,0);(0,0);(1,0);(0,0);(1,0);(1,0);(0,0);(1,0);(0,0);(0,0);(1,0);(1,0);(1,0);(1,0)]%nat.
+Example ex_history :
+  hist_of (init 1 [0] hw_progs) hw_sched =
+  [Lin.Inv op outc 0 (GetFuture false 1 0); Lin.Lin op outc 0; Lin.Res op outc 0 (ORet 0);
+   Lin.Inv op outc 1 (SetValue false false 1 7); Lin.Inv op outc 0 (IsCompleted false 1);
+   Lin.Lin op outc 1; Lin.Res op outc 1 OExn; Lin.Lin op outc 0; Lin.Res op outc 0 (ORet 0);
+   Lin.Inv op outc 1 (FulfillAll 9); Lin.Lin op outc 1; Lin.Res op outc 1 (ORet 0)] /\
+  option_map (map (fun a => (Lin.o_thr op outc a, Lin.o_op op outc a, Lin.o_res op outc a)))
+             (Lin.scan op outc (hist_of (init 1 [0] hw_progs) hw_sched)) =
+  Some [(0%nat, GetFuture false 1 0, Some (2%nat, ORet 0)); (1%nat, SetValue false false 1 7, Some (6%nat, OExn));
+        (0%nat, IsCompleted false 1, Some (8%nat, ORet 0)); (1%nat, FulfillAll 9, Some (11%nat, ORet 0))].
+Proof. vm_compute. split; reflexivity. Qed.
